@@ -324,3 +324,6 @@ func OutputOf(e Event) (string, string, map[string]string, bool) {
 	json.Unmarshal(raw, &m)
 	return id, cmd, m, true
 }
+
+// Sha3Hex is the digest an operator client sends for a password.
+func Sha3Hex(s string) string { return sha3hex(s) }
